@@ -26,6 +26,16 @@ TU = "scriptplan/_cython/time_utils_cy.pyx"
 MP = "scriptplan/parser/macro_processor.py"
 
 MUTANTS = [
+    # ------------------------------------------------------------------ reverts of repaired defects F66, F67, F68 (C19)
+    ("c19_file_name_quoted_in_temp_copy", "C19", [(PL, "            f.write(\"# Copy of the input with an auto-report added by plan CLI\\n\\n\")", "            f.write(f\"# Original file: {tjp_path}\\n\")\n            f.write(\"# Auto-report added by plan CLI\\n\\n\")")]),
+    ("c19_probe_oserror_unmapped", "C19", [(PL, "    try:\n        exists = path.exists()\n        is_file = exists and path.is_file()\n    except OSError as e:\n        raise FileNotFoundError(f\"File not found: {tjp_path} ({e})\") from e\n", "    exists = path.exists()\n    is_file = exists and path.is_file()\n")]),
+    ("c19_file_empty_by_size_only", "C19", [(PL, "        blank = not path.stat().st_size or not path.read_bytes().strip()", "        blank = not path.stat().st_size")]),
+    # ------------------------------------------------------------------ revert of repaired defect F65 (C11)
+    ("c11_inverted_pinned_dates_accepted", "C11", [(PJ, "                    if start <= end:\n                        task[(\"scheduled\", scIdx)] = True\n                    else:", "                    if True:\n                        task[(\"scheduled\", scIdx)] = True\n                    else:")]),
+    # ------------------------------------------------------------------ revert of repaired defect F64 (C06)
+    ("c06_fraction_of_a_second_rounds_to_zero", "C06", [(TS, "        seconds_rounded = max(1, round(seconds_into_slot))", "        seconds_rounded = round(seconds_into_slot)")]),
+    # ------------------------------------------------------------------ revert of repaired defect F63 (C05)
+    ("c05_limit_minutes_read_as_months", "C05", [(TP, "(\\d+(?:\\.\\d+)?)\\s*(min|[hdwmy])?\", str(duration_str))", "(\\d+(?:\\.\\d+)?)\\s*([hdwmy]?)\", str(duration_str))")]),
     # ------------------------------------------------------------------ round 3 (second batch)
     ("c02_day_range_sorted_ends", "C02", [(TP, "            if start_idx <= end_idx:\n                return day_order[start_idx : end_idx + 1]\n            else:\n                # Wrap around (unusual but supported)\n                return day_order[start_idx:] + day_order[: end_idx + 1]", "            if start_idx > end_idx:\n                start_idx, end_idx = end_idx, start_idx\n            return day_order[start_idx : end_idx + 1]")]),
     ("c02_day_range_no_wrap", "C02", [(TP, "                return day_order[start_idx:] + day_order[: end_idx + 1]", "                return day_order[start_idx : end_idx + 1]")]),
@@ -275,6 +285,7 @@ UNDECIDED = [
 
 # behaviour-preserving edits: the checks named must stay silent
 BENIGN = [
+    ("b_seconds_rounded_up", ["C06", "C01", "C03"], [(TS, "        seconds_rounded = max(1, round(seconds_into_slot))", "        seconds_rounded = max(1, int(round(seconds_into_slot)))")]),
     # ------------------------------------------------------------------ round 3 (second batch)
     ("b_day_range_branches_swapped", ["C02"], [(TP, "            if start_idx <= end_idx:\n                return day_order[start_idx : end_idx + 1]\n            else:\n                # Wrap around (unusual but supported)\n                return day_order[start_idx:] + day_order[: end_idx + 1]", "            if start_idx > end_idx:\n                return day_order[start_idx:] + day_order[: end_idx + 1]\n            return day_order[start_idx : end_idx + 1]")]),
     ("b_csv_rows_as_list", ["C18", "C19"], [(RP, "            writer.writerows(csv_data)", "            writer.writerows(list(csv_data))")]),
